@@ -27,30 +27,52 @@ import numpy as np
 
 from harness.core import PropertyCheck
 from harness.util import Snapshot, close, errname, fr
+from harness.props import c01_extra as X
 
 NAME_POOL = ["i", "j", "k", "l", "m", "x", "y", "z", "t", "u", "v", "w", "p", "q", "r", "s",
              "phase", "freq", "slice", "time", "ax_0", "B-2"]
 CS_NAMES = ["", "", "voxels", "world", "d", "r", "in", "out", "scanner"]
 MDT = {"float": "f8", "int": "i8", "frac": "O", "sym": "O"}
+INT_CODES = ("b1", "i1", "i2", "i4", "i8", "u1", "u2", "u4", "u8")
+DT_BITS = {"i1": 8, "i2": 16, "i4": 32, "i8": 64, "u1": 8, "u2": 16, "u4": 32, "u8": 64}
+# relative accuracy of one rounding in the narrow inexact types (others: 1e-8)
+DT_RTOL = {"f2": 4e-3, "f4": 2e-6, "c8": 2e-6}
+
+
+def _kcode(kind):
+    """matrix dtype code of a value kind; kinds "dt:<code>" name a numpy dtype directly"""
+    return kind[3:] if kind.startswith("dt:") else MDT[kind]
+
+
+def _is_intk(code):
+    return code in INT_CODES
 SUBS_TXT = {"a": "3/2", "b": "-2", "c": "1/4"}
+# symbolic cases are compared at two substitution points (all operations are rational functions of the entries)
+SUBS_POINTS = [{"a": "3/2", "b": "-2", "c": "1/4"}, {"a": "-5/3", "b": "7/2", "c": "3"}]
 MAXDIM = 6
 
 
 # ----------------------------------------------------------------------
 # values
 # ----------------------------------------------------------------------
+DT_NP = {"b1": np.bool_, "i1": np.int8, "i2": np.int16, "i4": np.int32, "i8": np.int64,
+         "u1": np.uint8, "u2": np.uint16, "u4": np.uint32, "u8": np.uint64,
+         "f2": np.float16, "f4": np.float32, "f8": np.float64, "c8": np.complex64, "c16": np.complex128,
+         "O": object, "S": np.dtype("U4")}
+DT_CODES = [c for c in DT_NP if c != "S"]
+
+
 def _np_dt(code):
-    return {"i8": np.int64, "f8": np.float64, "O": object}[code]
+    return DT_NP[code]
 
 
 def _dt_code(dt):
     dt = np.dtype(dt)
-    if dt == np.dtype(object):
-        return "O"
-    if dt.kind in "iu":
-        return "i8" if dt == np.dtype(np.int64) else "int:" + dt.name
-    if dt.kind == "f":
-        return "f8" if dt == np.dtype(np.float64) else "float:" + dt.name
+    for c, t in DT_NP.items():
+        if c != "S" and dt == np.dtype(t):
+            return c
+    if dt.kind in "USV":
+        return "S"
     return "other:" + dt.name
 
 
@@ -60,6 +82,17 @@ def _entry(s, kind):
         import sympy
         return sympy.sympify(s, rational=True)
     f = Fraction(s)
+    if kind.startswith("dt:"):
+        k = np.dtype(DT_NP[kind[3:]]).kind
+        if k == "b":
+            return bool(f)
+        if k in "iu":
+            return int(f)
+        if k == "f":
+            return float(f)
+        if k == "c":
+            return complex(float(f))
+        return f if f.denominator != 1 else int(f)
     if kind == "float":
         return float(f)
     if kind == "int":
@@ -71,6 +104,12 @@ def _exact(v) -> Fraction:
     """exact value of a matrix entry / coordinate (sympy symbols substituted)."""
     if isinstance(v, Fraction):
         return v
+    if isinstance(v, (bool, np.bool_)):
+        return Fraction(int(v))
+    if isinstance(v, (complex, np.complexfloating)):
+        if v.imag != 0:
+            raise ValueError(f"complex value with an imaginary part: {v!r}")
+        return Fraction(float(v.real))
     if isinstance(v, (int, np.integer)):
         return Fraction(int(v))
     if isinstance(v, (float, np.floating)):
@@ -90,6 +129,8 @@ def _subs_txt(s, kind):
 
 def _mat_np(mat, kind):
     rows = [[_entry(s, kind) for s in row] for row in mat]
+    if kind.startswith("dt:") and kind != "dt:O":
+        return np.array(rows, dtype=DT_NP[kind[3:]]).reshape(len(mat), len(mat[0]) if mat else 0)
     if kind == "float":
         return np.array(rows, dtype=np.float64).reshape(len(mat), len(mat[0]) if mat else 0)
     if kind == "int":
@@ -113,15 +154,22 @@ def _raw_line(m):
     r = len(m["mat"])
     c = len(m["mat"][0]) if r else 0
     ent = " ".join(_subs_txt(s, m["kind"]) for row in m["mat"] for s in row)
-    return f"{_cs_line(m['dom'])} {_cs_line(m['rng'])} {MDT[m['kind']]} {r} {c} {ent}".rstrip()
+    return f"{_cs_line(m['dom'])} {_cs_line(m['rng'])} {_kcode(m['kind'])} {r} {c} {ent}".rstrip()
 
 
 def _cs_obs(cs):
     return {"names": list(cs.coord_names), "name": cs.name, "dt": _dt_code(cs.coord_dtype)}
 
 
-def _pts_np(pts, pk, n):
-    """first n columns of the pool, as the requested dtype"""
+def _pts_np(pts, pk, n, integral=False):
+    """first n columns of the pool, as the requested dtype (`integral`: values truncated to integers)"""
+    if integral:
+        pts = [[str(int(Fraction(v))) for v in p] for p in pts]
+    if pk not in ("f8", "i8", "O"):
+        k = np.dtype(DT_NP[pk]).kind
+        conv = {"b": lambda v: bool(Fraction(v)), "i": lambda v: int(Fraction(v)), "u": lambda v: int(Fraction(v)),
+                "f": lambda v: float(Fraction(v)), "c": lambda v: complex(float(Fraction(v)))}[k]
+        return np.array([[conv(v) for v in p[:n]] for p in pts], dtype=DT_NP[pk]).reshape(len(pts), n)
     if pk == "f8":
         return np.array([[float(Fraction(v)) for v in p[:n]] for p in pts], dtype=np.float64).reshape(len(pts), n)
     if pk == "i8":
@@ -220,13 +268,85 @@ def _real_cs(cs):
     return CoordinateSystem(list(cs["names"]), cs["name"], _np_dt(cs["dt"]))
 
 
+def _vec_py(vals, kind):
+    return [_entry(v, kind) for v in vals]
+
+
+def _real_maker(mk):
+    from nipy.core.reference.coordinate_system import CoordSysMaker
+    return CoordSysMaker(list(mk["names"]), mk["name"], _np_dt(mk["dt"]))
+
+
 def _real_map(m):
-    from nipy.core.reference.coordinate_map import AffineTransform
-    return AffineTransform(_real_cs(m["dom"]), _real_cs(m["rng"]), _mat_np(m["mat"], m["kind"]))
+    """the AffineTransform described by the JSON `m`: the plain constructor, or one of the class constructors
+    from_params (matrix / (A, b) tuple), from_start_step, identity, CoordMapMaker.make_affine / __call__"""
+    import nipy.core.reference.coordinate_map as cm
+    AT = cm.AffineTransform
+    c = m.get("ctor")
+    if c is None:
+        return AT(_real_cs(m["dom"]), _real_cs(m["rng"]), _mat_np(m["mat"], m["kind"]))
+    if c == "fp":
+        return AT.from_params(list(m["inn"]), list(m["outn"]), _mat_np(m["mat"], m["kind"]), m["dn"], m["rn"])
+    if c == "fpmv":
+        return AT.from_params(list(m["inn"]), list(m["outn"]), (_mat_np(m["A"], m["kind"]), _vec_py(m["b"], m["bk"])),
+                              domain_name=m["dn"], range_name=m["rn"])
+    if c == "fss":
+        return AT.from_start_step(list(m["inn"]), list(m["outn"]), _vec_py(m["start"], m["sk"]),
+                                  _vec_py(m["step"], m["pk"]), m["dn"], m["rn"])
+    if c == "ident":
+        return AT.identity(list(m["names"]), m["name"])
+    if c == "mkaff":
+        mk = cm.CoordMapMaker(_real_maker(m["dm"]), _real_maker(m["rm"]))
+        args = [_mat_np(m["mat"], m["kind"])]
+        if m["zooms"] or m["offsets"] or m.get("explicit"):
+            args.append(_vec_py(m["zooms"], m["zk"]))
+            if m["offsets"] or m.get("explicit"):
+                args.append(_vec_py(m["offsets"], m["ofk"]))
+        return mk(*args) if m.get("via") == "call" else mk.make_affine(*args)
+    raise KeyError(c)
+
+
+def _plist(vals, kind):
+    return f"{len(vals)}" + "".join(" " + _subs_txt(v, kind) for v in vals)
+
+
+def _slist(names):
+    return f"{len(names)}" + "".join(" " + _enc(n) for n in names)
+
+
+def _mat_txt(mat, kind):
+    r = len(mat)
+    c = len(mat[0]) if r else 0
+    return (f"{r} {c} " + " ".join(_subs_txt(v, kind) for row in mat for v in row)).rstrip()
+
+
+def _init_line(m):
+    c = m.get("ctor")
+    if c is None:
+        return "raw " + _raw_line(m)
+    if c == "fp":
+        return (f"fp {_slist(m['inn'])} {_slist(m['outn'])} {_kcode(m['kind'])} {_mat_txt(m['mat'], m['kind'])} "
+                f"{_enc(m['dn'])} {_enc(m['rn'])}")
+    if c == "fpmv":
+        return (f"fpmv {_slist(m['inn'])} {_slist(m['outn'])} {_kcode(m['kind'])} {_mat_txt(m['A'], m['kind'])} "
+                f"{_plist(m['b'], m['bk'])} {_enc(m['dn'])} {_enc(m['rn'])}")
+    if c == "fss":
+        sdt = _dt_code(np.diag(_vec_py(m["step"], m["pk"])).dtype)
+        return (f"fss {_slist(m['inn'])} {_slist(m['outn'])} {_plist(m['start'], m['sk'])} "
+                f"{_plist(m['step'], m['pk'])} {sdt} {_enc(m['dn'])} {_enc(m['rn'])}")
+    if c == "ident":
+        return f"ident {_slist(m['names'])} {_enc(m['name'])}"
+    if c == "mkaff":
+        zdt = _dt_code(np.atleast_1d(_vec_py(m["zooms"], m["zk"])).dtype) if m["zooms"] else "f8"
+        return (f"mkaff {_cs_line(m['dm'])} {_cs_line(m['rm'])} {_kcode(m['kind'])} {_mat_txt(m['mat'], m['kind'])} "
+                f"{_plist(m['zooms'], m['zk'])} {_plist(m['offsets'], m['ofk'])} {zdt}")
+    raise KeyError(c)
 
 
 def _shear(c, x):
     y = np.array(x, copy=True)
+    if y.dtype.kind in "iub" and not isinstance(c, (int, np.integer)):
+        y = y.astype(np.float64)      # integer points handed to a float map: do not truncate c * x0^2
     if y.shape[1] > 1:
         y[:, 1:] = y[:, 1:] + c * y[:, :1] * y[:, :1]
     return y
@@ -234,16 +354,26 @@ def _shear(c, x):
 
 def _real_general(A, g):
     import nipy.core.reference.coordinate_map as cm
+    from nipy.core.reference.coordinate_system import CoordSysMaker
     M = cm._as_coordinate_map(A)
-    if g["g"] == "affine":
-        return M
     f0, i0 = M.function, M.inverse_function
-    if g["g"] == "shear":
-        c = _entry(g["c"], "int" if _dt_code(A.function_domain.coord_dtype) == "i8" else "float")
+    if g["g"] == "affine":
+        fwd, inv = f0, i0
+    elif g["g"] == "shear":
+        c = _entry(g["c"], "int" if _is_intk(_dt_code(A.function_domain.coord_dtype)) else "float")
         fwd = lambda x: _shear(c, f0(x))
         inv = (lambda y: i0(_shear(-c, y))) if i0 is not None else None
-        return cm.CoordinateMap(A.function_domain, A.function_range, fwd, inv)
-    return cm.CoordinateMap(A.function_domain, A.function_range, lambda x: f0(x) * f0(x), None)
+    else:
+        fwd, inv = (lambda x: f0(x) * f0(x)), None
+    if g.get("maker"):
+        # the same map made by CoordMapMaker.__call__ -> make_cmap: the makers know more names than needed
+        d, r = A.function_domain, A.function_range
+        mk = cm.CoordMapMaker(CoordSysMaker(list(d.coord_names) + ["zz_d"], d.name, d.coord_dtype),
+                              CoordSysMaker(list(r.coord_names) + ["zz_r", "zz_s"], r.name, r.coord_dtype))
+        return mk(A.ndims[0], fwd, inv) if g["maker"] == "call" else mk.make_cmap(A.ndims[0], fwd, inv)
+    if g["g"] == "affine":
+        return M
+    return cm.CoordinateMap(A.function_domain, A.function_range, fwd, inv)
 
 
 def _order_arg(o):
@@ -268,6 +398,19 @@ def _apply_op(cur, op, general):
             B = _real_map(op["map"])
             args = (cur, B) if k == "prod_r" else (B, cur)
             return cm.product(*args, input_name=op["in"], output_name=op["out"]), None
+        if k == "compose_n":
+            Ls = [_real_map(m) for m in op["ls"]]
+            Rs = [_real_map(m) for m in op["rs"]]
+            return cm.compose(*(Ls + [cur] + Rs)), None
+        if k == "prod_n":
+            Ls = [_real_map(m) for m in op["ls"]]
+            Rs = [_real_map(m) for m in op["rs"]]
+            kw = {}
+            if op.get("in") is not None:
+                kw["input_name"] = op["in"]
+            if op.get("out") is not None:
+                kw["output_name"] = op["out"]
+            return cm.product(*(Ls + [cur] + Rs), **kw), None
         if k == "reord_d":
             return cur.reordered_domain(_order_arg(op["order"])), None
         if k == "reord_r":
@@ -305,6 +448,15 @@ def _op_line(op, pre):
         return f"compose3 {_raw_line(op['left'])} {_raw_line(op['right'])}"
     if k in ("prod_r", "prod_l"):
         return f"{k} {_raw_line(op['map'])} {_enc(op['in'])} {_enc(op['out'])}"
+    if k == "compose_n":
+        return (f"compose_n {len(op['ls'])} " + " ".join(_raw_line(m) for m in op["ls"]) +
+                f" {len(op['rs'])} " + " ".join(_raw_line(m) for m in op["rs"])).replace("  ", " ").rstrip()
+    if k == "prod_n":
+        i_nm = "product" if op.get("in") is None else op["in"]
+        o_nm = "product" if op.get("out") is None else op["out"]
+        return (f"prod_n {len(op['ls'])} " + " ".join(_raw_line(m) for m in op["ls"]) +
+                f" {len(op['rs'])} " + " ".join(_raw_line(m) for m in op["rs"])).replace("  ", " ").rstrip() + \
+            f" {_enc(i_nm)} {_enc(o_nm)}"
     if k in ("reord_d", "reord_r"):
         o = op["order"]
         if o is None:
@@ -324,7 +476,9 @@ def _op_line(op, pre):
         return f"{k} {len(op['vec'])}" + "".join(" " + _subs_txt(s, vk) for s in op["vec"]) + " " + _enc(op["name"])
     if k == "append":
         vk = op.get("vk", "float")
-        return f"append {_enc(op['in'])} {_enc(op['out'])} {_subs_txt(op['start'], vk)} {_subs_txt(op['step'], vk)}"
+        mdt = _dt_code(np.array([[_entry(op["step"], vk), _entry(op["start"], vk)], [0, 1]]).dtype)
+        return (f"append {_enc(op['in'])} {_enc(op['out'])} {_subs_txt(op['start'], vk)} "
+                f"{_subs_txt(op['step'], vk)} {mdt}")
     if k == "drop":
         orn = _ornts(pre.affine, op["fix0"])
         ax = op["axis"]
@@ -347,17 +501,37 @@ def _ev(m, pts, n=None, pk=None):
     return x, _to_float(m(x))
 
 
+_TOL = [1e-7]        # tolerance of the oracle's comparisons (looser while a narrow float type is in play)
+
+
 def _same(a, b):
     a = np.asarray(a, dtype=float)
     b = np.asarray(b, dtype=float)
     if a.shape != b.shape:
         return False
     scale = max(1.0, float(np.max(np.abs(b))) if b.size else 1.0)
-    return bool(np.allclose(a, b, rtol=1e-7, atol=1e-7 * scale))
+    return bool(np.allclose(a, b, rtol=_TOL[0], atol=_TOL[0] * scale))
 
 
 def _call_f(m, x):
     return _to_float(m(x))
+
+
+def _inv_amp(inv_map, y):
+    """largest entry of a finite-difference Jacobian of an inverse map at the points y: how much the rounding
+    of y (and of the inverse's own arithmetic) is amplified"""
+    try:
+        y = np.asarray(_to_float(y), dtype=float)
+        base = _to_float(inv_map(y))
+        amp = 1.0
+        for j in range(y.shape[1]):
+            d = 1e-6 * (1.0 + np.abs(y[:, j]).max())
+            y2 = y.copy()
+            y2[:, j] += d
+            amp = max(amp, float(np.max(np.abs(_to_float(inv_map(y2)) - base))) / d)
+        return amp if np.isfinite(amp) else 1e300
+    except Exception:
+        return 1.0
 
 
 def _clause(pre, op, post, pts, general):
@@ -367,13 +541,16 @@ def _clause(pre, op, post, pts, general):
     pk = _pk_for(post) if post is not None else None
     with warnings.catch_warnings():
         warnings.simplefilter("ignore")
-        if k in ("compose_r", "compose_l", "compose3"):
+        if k in ("compose_r", "compose_l", "compose3", "compose_n"):
             if k == "compose_r":
                 seq = [_real_map(op["map"]), pre]
             elif k == "compose_l":
                 seq = [pre, _real_map(op["map"])]
-            else:
+            elif k == "compose3":
                 seq = [_real_map(op["right"]), pre, _real_map(op["left"])]
+            else:       # compose(L_1, .., L_a, cur, R_1, .., R_b): the rightmost map acts first
+                seq = [_real_map(m) for m in reversed(op["rs"])] + [pre] + \
+                      [_real_map(m) for m in reversed(op["ls"])]
             x = _pts_np(pts, pk, post.ndims[0])
             y = x
             for m in seq:
@@ -387,19 +564,32 @@ def _clause(pre, op, post, pts, general):
                 return (f"{k}: every composed map is invertible (exactly non-singular square affines / maps with an "
                         f"inverse function) but the composition offers no inverse")
             return None
-        if k in ("prod_r", "prod_l"):
-            B = _real_map(op["map"])
-            first, second = (pre, B) if k == "prod_r" else (B, pre)
-            n1, n2 = first.ndims[0], second.ndims[0]
-            x = _pts_np(pts, "i8" if "i8" in (_pk_for(first), _pk_for(second)) else pk, n1 + n2)
-            want = np.hstack([_to_float(first(x[:, :n1].astype(_np_dt(_pk_for(first)), copy=False)
-                                              if _pk_for(first) != "O" else x[:, :n1])),
-                              _to_float(second(x[:, n1:].astype(_np_dt(_pk_for(second)), copy=False)
-                                               if _pk_for(second) != "O" else x[:, n1:]))])
-            if not _same(_call_f(post, x), want):
-                return f"{k}: the product map does not act independently on the two coordinate blocks at {x[0].tolist()}"
-            if list(post.function_domain.coord_names) != list(first.function_domain.coord_names) + list(second.function_domain.coord_names):
+        if k in ("prod_r", "prod_l", "prod_n"):
+            if k == "prod_n":
+                facs = [_real_map(m) for m in op["ls"]] + [pre] + [_real_map(m) for m in op["rs"]]
+            else:
+                B = _real_map(op["map"])
+                facs = [pre, B] if k == "prod_r" else [B, pre]
+            nins = [f.ndims[0] for f in facs]
+            x = _pts_np(pts, pk, sum(nins), integral=any(_is_intk(_pk_for(f)) for f in facs))
+            blocks, j = [], 0
+            for f, n in zip(facs, nins):
+                xb = x[:, j:j + n]
+                blocks.append(_to_float(f(xb.astype(_np_dt(_pk_for(f)), copy=False) if _pk_for(f) != "O" else xb))
+                              .reshape(len(pts), f.ndims[1]))
+                j += n
+            want = np.hstack(blocks) if blocks else np.zeros((len(pts), 0))
+            if not _same(_call_f(post, x).reshape(want.shape), want):
+                return f"{k}: the product map does not act independently on the coordinate blocks at {x[0].tolist()}"
+            if list(post.function_domain.coord_names) != sum((list(f.function_domain.coord_names) for f in facs), []):
                 return f"{k}: product domain names are not the concatenation"
+            if list(post.function_range.coord_names) != sum((list(f.function_range.coord_names) for f in facs), []):
+                return f"{k}: product range names are not the concatenation"
+            if k == "prod_n":
+                want_in = "product" if op.get("in") is None else op["in"]
+                want_out = "product" if op.get("out") is None else op["out"]
+                if post.function_domain.name != want_in or post.function_range.name != want_out:
+                    return f"{k}: coordinate system names are not the requested input_name / output_name"
             return None
         if k in ("reord_d", "reord_r", "ren_d", "ren_r"):
             dom_side = k.endswith("_d")
@@ -457,10 +647,15 @@ def _clause(pre, op, post, pts, general):
             ymax = float(np.max(np.abs(_to_float(y)))) if general else 0.0
             if not _same(back, _to_float(x)) and \
                not np.allclose(back, _to_float(x), rtol=1e-7, atol=1e-7 + 1e-12 * ymax * ymax):
-                return f"inverse: inverse(map(x)) != x at x={x[0].tolist()}"
+                # ill-conditioned composites (tiny scale factors composed several times): the rounding of map(x)
+                # is amplified by the inverse; allow what that amplification explains
+                amp = _inv_amp(post, y) if _pk_for(pre) == "f8" else 1.0
+                yabs = float(np.max(np.abs(_to_float(y)))) if np.size(y) else 0.0
+                if not np.allclose(back, _to_float(x), rtol=1e-7, atol=1e-7 + 1e-13 * amp * (1.0 + yabs)):
+                    return f"inverse: inverse(map(x)) != x at x={x[0].tolist()}"
             if not general:
                 yy = _pts_np(pts, _pk_for(post), post.ndims[0])
-                fwd = _to_float(pre(post(yy))) if _pk_for(pre) != "i8" else None
+                fwd = _to_float(pre(post(yy))) if not _is_intk(_pk_for(pre)) else None
                 if fwd is not None and not _same(fwd, _to_float(yy)):
                     return f"inverse: map(inverse(y)) != y at y={yy[0].tolist()}"
             if post.function_domain.coord_names != pre.function_range.coord_names or \
@@ -473,9 +668,16 @@ def _clause(pre, op, post, pts, general):
             n = pre.ndims[0] if k == "shift_d" else pre.ndims[1]
             if len(vec) != n:
                 return None    # numpy broadcasting of a short vector: not a clause of the property
-            if _pk_for(pre) == "i8":
+            if _is_intk(_pk_for(pre)):
                 vec = np.trunc(vec)
-            if k == "shift_d":
+            if k == "shift_d" and general:
+                # the old map at the shifted coordinates (same dtype as the map's domain)
+                if _is_intk(_pk_for(pre)):
+                    xs = x + vec.astype(np.int64)
+                else:
+                    xs = x + vec
+                want = _call_f(pre, xs)
+            elif k == "shift_d":
                 xs = _to_float(x) + vec
                 A = _to_float(pre.affine)
                 want = xs @ A[:-1, :-1].T + A[:-1, -1]
@@ -485,9 +687,10 @@ def _clause(pre, op, post, pts, general):
                 return f"{k}: shifted map is not the map of the shifted coordinates at {x[0].tolist()}"
             return None
         if k == "append":
-            x = _pts_np(pts, "i8" if _pk_for(pre) == "i8" else pk, post.ndims[0])
+            x = _pts_np(pts, pk, post.ndims[0], integral=_is_intk(_pk_for(pre)))
             y = _call_f(post, x)
-            yo = _call_f(pre, x[:, :-1])
+            xo = x[:, :-1]
+            yo = _call_f(pre, xo.astype(_np_dt(_pk_for(pre)), copy=False) if _pk_for(pre) != "O" else xo)
             vk = op.get("vk", "float")
             st, sp = float(_exact(_entry(op["start"], vk))), float(_exact(_entry(op["step"], vk)))
             if not _same(y[:, :-1], yo) or not _same(y[:, -1], st + sp * _to_float(x)[:, -1]):
@@ -515,6 +718,87 @@ def _clause(pre, op, post, pts, general):
     return None
 
 
+def _exact_bottom(m):
+    if m.get("ctor") in ("fpmv", "fss", "ident") or (m.get("ctor") == "mkaff" and m["zooms"]):
+        return True
+    bot = m["mat"][-1] if m["mat"] else []
+    return bool(bot) and all(str(v) == "0" for v in bot[:-1]) and str(bot[-1]) == "1"
+
+
+def _op_hyp(pre, op):
+    """side condition of the Lean theorem `step_sound` for this step, evaluated on the real objects:
+    partner maps of a composition have the exact bottom row; the input column that drop_io_dim discards is
+    exactly zero outside the discarded output row"""
+    import nipy.core.reference.coordinate_map as cm
+    k = op["op"]
+    if k in ("compose_r", "compose_l"):
+        return _exact_bottom(op["map"])
+    if k == "compose3":
+        return _exact_bottom(op["left"]) and _exact_bottom(op["right"])
+    if k == "compose_n":
+        return all(_exact_bottom(m) for m in op["ls"] + op["rs"])
+    if k == "drop":
+        with warnings.catch_warnings():
+            warnings.simplefilter("ignore")
+            i, o = cm.io_axis_indices(pre, op["axis"], op["fix0"])
+        if i is None:
+            return True
+        a = np.asarray(pre.affine)
+        return all(_exact(a[r, i]) == 0 for r in range(a.shape[0] - 1) if r != o)
+    return True
+
+
+def _ctor_expect(m):
+    """(input names, output names, exact homogeneous matrix) a class constructor must produce, or None when the
+    arguments are malformed or hit numpy's assignment rules (a fractional vector assigned into an integer
+    matrix, a length-1 vector broadcast) that the property does not speak about"""
+    c = m.get("ctor")
+    if c is None or m.get("malformed"):
+        return None
+    F = lambda vals, kind: [_exact(_entry(v, kind)) for v in vals]
+    def integral_ok(mat_kind_code, vec):
+        return not _is_intk(mat_kind_code) or all(v.denominator == 1 for v in vec)
+    if c == "fp":
+        return m["inn"], m["outn"], [F(row, m["kind"]) for row in m["mat"]]
+    if c == "fpmv":
+        b = F(m["b"], m["bk"])
+        if len(b) != len(m["outn"]) or not integral_ok(_kcode(m["kind"]), b):
+            return None
+        nin = len(m["inn"])
+        return m["inn"], m["outn"], [F(row, m["kind"]) + [b[i]] for i, row in enumerate(m["A"])] + \
+            [[Fraction(0)] * nin + [Fraction(1)]]
+    if c == "fss":
+        st, sp = F(m["start"], m["sk"]), F(m["step"], m["pk"])
+        n = len(m["inn"])
+        sdt = _dt_code(np.diag(_vec_py(m["step"], m["pk"])).dtype)
+        if len(st) != n or len(sp) != n or not integral_ok(sdt, st):
+            return None
+        return m["inn"], m["outn"], [[sp[i] if i == j else Fraction(0) for j in range(n)] + [st[i]]
+                                     for i in range(n)] + [[Fraction(0)] * n + [Fraction(1)]]
+    if c == "ident":
+        n = len(m["names"])
+        return m["names"], m["names"], [[Fraction(int(i == j)) for j in range(n + 1)] for i in range(n + 1)]
+    if c == "mkaff":
+        z, o = F(m["zooms"], m["zk"]), F(m["offsets"], m["ofk"])
+        e = len(z)
+        if o and len(o) != e:
+            return None
+        o = o or [Fraction(0)] * e
+        zdt = _dt_code(np.atleast_1d(_vec_py(m["zooms"], m["zk"])).dtype) if e else "f8"
+        if not integral_ok(zdt, o):
+            return None
+        base = [F(row, m["kind"]) for row in m["mat"]]
+        nout, nin = len(base) - 1, len(base[0]) - 1
+        rows = []
+        for i in range(nout):
+            rows.append(base[i][:nin] + [Fraction(0)] * e + [base[i][nin]])
+        for k in range(e):
+            rows.append([Fraction(0)] * nin + [z[k] if k == j else Fraction(0) for j in range(e)] + [o[k]])
+        rows.append([Fraction(0)] * (nin + e) + [Fraction(1)])
+        return m["dm"]["names"][:nin + e], m["rm"]["names"][:nout + e], rows
+    return None
+
+
 # ----------------------------------------------------------------------
 # executing a program
 # ----------------------------------------------------------------------
@@ -522,11 +806,15 @@ def _execute(prog):
     general = prog.get("general")
     pts = prog["pts"]
     tags = ["general" if general else "affine", "kind=" + prog["init"]["kind"]]
-    head = ("gprog " if general else "prog ") + _raw_line(prog["init"])
+    if prog["init"].get("ctor"):
+        tags.append("ctor=" + prog["init"]["ctor"])
+    head = ("gprog2 " + _raw_line(prog["init"])) if general else \
+        (("progi " + _init_line(prog["init"])) if prog["init"].get("ctor") else ("prog " + _raw_line(prog["init"])))
     if general:
         head += " " + (f"shear {_subs_txt(general['c'], 'float')}" if general["g"] == "shear" else general["g"])
     oplines, oracle, mutated = [], None, None
     status, cur = "ok", None
+    hyp = _exact_bottom(prog["init"])
     try:
         cur = _real_map(prog["init"])
         if general:
@@ -535,6 +823,29 @@ def _execute(prog):
         status = errname(e) + "@init"
         if prog.get("expect_init", "any") == "ok":
             oracle = f"constructing a valid AffineTransform raised {type(e).__name__}: {e}"
+    if cur is not None and not general:
+        want = _ctor_expect(prog["init"])
+        if want is not None:
+            # the class constructors denote the affine map their arguments spell out
+            inn, outn, M = want
+            got = [[_exact(v) for v in row] for row in np.asarray(cur.affine)]
+            m0 = prog["init"]
+            cn = {"fp": (m0.get("dn"), m0.get("rn")), "fpmv": (m0.get("dn"), m0.get("rn")),
+                  "fss": (m0.get("dn"), m0.get("rn")), "ident": (m0.get("name"), m0.get("name")),
+                  "mkaff": (m0.get("dm", {}).get("name"), m0.get("rm", {}).get("name"))}[m0["ctor"]]
+            if (cur.function_domain.name, cur.function_range.name) != cn:
+                oracle = (f"{m0['ctor']}: coordinate systems are named {cur.function_domain.name!r} -> "
+                          f"{cur.function_range.name!r} instead of the requested {cn[0]!r} -> {cn[1]!r}")
+            elif list(cur.function_domain.coord_names) != list(inn) or \
+               list(cur.function_range.coord_names) != list(outn):
+                oracle = (f"{prog['init']['ctor']}: coordinate names {cur.function_domain.coord_names} -> "
+                          f"{cur.function_range.coord_names} are not the requested {inn} -> {outn}")
+            elif (len(got), len(got[0])) != (len(M), len(M[0])) or \
+                    any(not close(g, w, 1e-12, 1e-12) for gr, wr in zip(got, M) for g, w in zip(gr, wr)):
+                x = [Fraction(v) for v in pts[0][:len(inn)]] if pts else []
+                oracle = (f"{prog['init']['ctor']}: the constructed map is not the affine map its arguments spell "
+                          f"out (matrix {[[str(v) for v in r] for r in got]} instead of "
+                          f"{[[str(v) for v in r] for r in M]}), e.g. at x={[str(v) for v in x]}")
     if cur is not None:
         for k, op in enumerate(prog["ops"]):
             tags.append(op["op"] + ("" if op.get("expect", "any") != "refuse" else ":mismatch"))
@@ -543,6 +854,17 @@ def _execute(prog):
             except Exception as e:       # externals of the model cannot be computed (e.g. svd of objects)
                 tags.append("skipped-op")
                 break
+            try:
+                if not general:
+                    hyp = hyp and _op_hyp(cur, op)
+                elif op["op"] in ("prod_r", "prod_l"):
+                    hyp = hyp and _exact_bottom(op["map"])
+                elif op["op"] == "prod_n":
+                    hyp = hyp and all(_exact_bottom(m) for m in op["ls"] + op["rs"])
+                elif op["op"].startswith("compose"):
+                    hyp = hyp and _op_hyp(cur, op)
+            except Exception:
+                pass                     # the step itself fails below; `hyp` is only compared for completed programs
             try:
                 post, mut = _apply_op(cur, op, general)
                 mutated = mutated or mut
@@ -564,6 +886,8 @@ def _execute(prog):
                 tags.append("no-inverse")
                 break
             try:
+                dts = {_pk_for(cur), _pk_for(post)}
+                _TOL[0] = 20 * max([1e-7 / 20] + [DT_RTOL[d] for d in dts if d in DT_RTOL])
                 fail = _clause(cur, op, post, pts, general)
             except Exception as e:
                 fail = (f"step {k} ({op['op']}): evaluating the resulting map raised {type(e).__name__}: "
@@ -585,6 +909,8 @@ def _execute(prog):
         if not general:
             obs["aff"] = [[fr(_exact(v)) for v in row] for row in cur.affine]
             obs["aff_dt"] = _dt_code(cur.affine.dtype)
+        obs["hyp"] = bool(hyp)
+        tags.append(("cthm-" if general else "thm-") + ("hyp" if hyp else "nohyp"))
         try:
             y = cur(x)
             obs["call"] = [[fr(_exact(v)) for v in row] for row in np.atleast_2d(y)]
@@ -595,13 +921,15 @@ def _execute(prog):
                     with warnings.catch_warnings():
                         warnings.simplefilter("ignore")
                         back = cur.inverse()(y)
+                        if _dt_code(np.asarray(y).dtype) == "f8":
+                            obs["inv_amp"] = _inv_amp(cur.inverse(), np.atleast_2d(y))
                     obs["inv"] = [[fr(_exact(v)) for v in row] for row in np.atleast_2d(back)]
         except Exception as e:
             obs["call"] = errname(e)
             if general:
                 obs["inv"] = "skip" if cur.inverse_function is not None else None
         line_pts = f"{pk} {len(pts)} {n} " + " ".join(fr(_exact(v)) for v in x.ravel())
-        bot = prog["init"]["mat"][-1]
+        bot = prog["init"].get("mat", [["1"]])[-1]
         if general and not (all(str(v) == "0" for v in bot[:-1]) and str(bot[-1]) == "1"):
             # bottom row merely close to [0,..,0,1] (accepted by the constructor's allclose): such a matrix is not an
             # affine map in the property's sense; only acceptance and evaluation are compared, not the inverse
@@ -610,7 +938,7 @@ def _execute(prog):
         line_pts = f"{pk} 0 0"
     line = f"{head} {len(oplines)} {' '.join(oplines)} {line_pts}".replace("  ", " ").rstrip()
     return {"lines": [line], "impl": [obs], "oracle": oracle,
-            "nontrivial": len(prog["ops"]) >= 1 and len(prog["init"]["mat"]) >= 2,
+            "nontrivial": len(prog["ops"]) >= 1 or bool(prog["init"].get("ctor")),
             "tags": sorted(set(tags)), "mutated": mutated}
 
 
@@ -871,6 +1199,80 @@ def _gen_rename(rng, names, fresh, malformed):
     return kv, "any"
 
 
+def _as_ctor(rng, fresh, raw, base):
+    """the same kind of initial map built through a class constructor instead of AffineTransform(...)"""
+    inn, outn = list(raw["dom"]["names"]), list(raw["rng"]["names"])
+    nin, nout = len(inn), len(outn)
+    kind = raw["kind"]
+    dn, rn = raw["dom"]["name"], raw["rng"]["name"]
+    vk2 = rng.choice(["float", "int", kind])
+    ways = ["fp", "fp", "fpmv", "fpmv", "mkaff", "mkaff", "ident"] + (["fss", "fss", "fss"] if nin == nout else [])
+    w = rng.choice(ways)
+    bad = rng.random() < 0.15
+    if w == "fp":
+        m = {"ctor": "fp", "inn": inn, "outn": outn, "kind": kind, "mat": raw["mat"], "dn": dn, "rn": rn}
+        if bad:
+            m["malformed"] = True
+            if rng.random() < 0.5:
+                m["inn"] = inn + fresh.names(1, inn)
+            else:
+                m["outn"] = [outn[0]] + outn[:-1] if nout > 1 else outn + fresh.names(1, outn)
+        return m
+    if w == "fpmv":
+        b = [_val(rng, vk2) for _ in range(nout)]
+        m = {"ctor": "fpmv", "inn": inn, "outn": outn, "kind": kind, "A": [row[:-1] for row in raw["mat"][:-1]],
+             "b": b, "bk": vk2 if kind != "frac" else "frac", "dn": dn, "rn": rn}
+        if bad:
+            m["malformed"] = True
+            m["b"] = rng.choice([b[:1], b + ["1"], []])
+        return m
+    if w == "fss":
+        sk, pk = rng.choice(["float", "int", "frac"]), rng.choice(["float", "int", "int", "frac"])
+        m = {"ctor": "fss", "inn": inn, "outn": outn, "kind": kind, "sk": sk, "pk": pk, "dn": dn, "rn": rn,
+             "start": [_val(rng, sk) for _ in range(nin)],
+             "step": [rng.choice(["1", "2", "-1", "3", _val(rng, pk)]) for _ in range(nin)]}
+        if bad:
+            m["malformed"] = True
+            z = rng.choice(["outn", "step", "start1", "start"])
+            if z == "outn":
+                m["outn"] = outn + fresh.names(1, outn)
+            elif z == "step":
+                m["step"] = m["step"] + ["1"]
+            elif z == "start1":
+                m["start"] = m["start"][:1]
+            else:
+                m["start"] = m["start"] + ["0"]
+        return m
+    if w == "ident":
+        m = {"ctor": "ident", "names": inn, "name": dn, "kind": "float"}
+        if bad and nin >= 2:
+            m["malformed"] = True
+            m["names"] = [inn[0]] + inn[:-1]
+        return m
+    # CoordMapMaker: the makers know more names than needed; zooms / offsets append diagonal axes
+    extra = rng.choice([0, 0, 1, 2]) if max(nin, nout) + 2 <= MAXDIM else 0
+    more_i = fresh.names(extra + rng.randint(0, 2), inn + outn)
+    more_o = fresh.names(extra + rng.randint(0, 2), inn + outn + more_i)
+    zk = rng.choice(["float", "int", "float"]) if kind != "frac" else "frac"
+    m = {"ctor": "mkaff", "kind": kind, "mat": raw["mat"], "zk": zk,
+         "dm": {"names": inn + more_i, "name": dn, "dt": rng.choice(["f8", "f8", MDT[kind]])},
+         "rm": {"names": outn + more_o, "name": rn, "dt": rng.choice(["f8", "f8", MDT[kind]])},
+         "zooms": [rng.choice(["1", "2", "-1", _val(rng, zk)]) for _ in range(extra)],
+         "via": rng.choice(["call", "make_affine"]), "explicit": rng.random() < 0.3}
+    m["ofk"] = zk if (zk == "frac" or rng.random() < 0.6) else "float"
+    m["offsets"] = [_val(rng, m["ofk"]) for _ in range(extra)] if rng.random() < 0.7 else []
+    if bad:
+        m["malformed"] = True
+        z = rng.choice(["offsets", "short-maker", "dup"])
+        if z == "offsets" and extra:
+            m["offsets"] = m["offsets"][:-1] if len(m["offsets"]) > 1 else ["1", "2", "3"]
+        elif z == "short-maker":
+            m["dm"]["names"] = inn[:-1] if nin > 1 else []
+        else:
+            m["rm"]["names"] = [outn[0]] + outn[:-1] if nout > 1 else outn
+    return m
+
+
 def _build(case):
     """explicit program for a seed-form case; runs the real code to follow the current coordinate systems"""
     rng = random.Random(case["seed"])
@@ -883,11 +1285,20 @@ def _build(case):
     init = _gen_partner(rng, fresh, general=bool(general), nin=nin, nout=nout, dt=dt0, base=base,
                         invertible=rng.random() < 0.7)
     prog = {"init": init, "ops": [], "expect_init": "ok"}
+    if not general and base in ("float", "int", "frac") and rng.random() < 0.2:
+        init = _as_ctor(rng, fresh, init, base)
+        prog["init"] = init
+        if init.get("malformed"):
+            prog["expect_init"] = "any"
     if general:
         g = rng.choice(["affine", "affine", "shear", "shear", "square"])
         prog["general"] = {"g": g, "c": rng.choice(["1", "2", "-1"]) if base == "int" else rng.choice(["1", "1/2", "-2"])}
-    if rng.random() < 0.06:      # malformed constructor arguments
-        w = rng.choice(["shape", "bottom", "bottom-tol", "dupnames"])
+        if rng.random() < 0.2:
+            prog["general"]["maker"] = rng.choice(["call", "make_cmap"])
+    if rng.random() < 0.06 and not init.get("ctor"):      # malformed constructor arguments
+        # (a matrix whose bottom row is merely close to [0,..,0,1] is not wrapped as a general map: the wrapper
+        # inverts it, and the inverse's bottom row may or may not pass the constructor's window)
+        w = rng.choice(["shape", "bottom", "bottom-tol", "dupnames"] if not general else ["shape", "bottom", "dupnames"])
         prog["expect_init"] = "any"
         if w == "shape":
             init["mat"] = [row[:-1] for row in init["mat"]] if rng.random() < 0.5 and nin >= 1 else init["mat"][:-1]
@@ -919,11 +1330,13 @@ def _build(case):
     except Exception:
         prog["pts"], prog["pk"] = _gen_pts(rng, base), dt0
         return prog
-    aff_ops = ["compose_r"] * 3 + ["compose_l"] * 3 + ["compose3", "prod_r", "prod_l", "reord_d", "reord_d",
+    aff_ops = ["compose_r"] * 3 + ["compose_l"] * 3 + ["compose3", "compose_n", "compose_n", "prod_n", "prod_n",
+               "prod_r", "prod_l", "reord_d", "reord_d",
                "reord_d", "reord_r", "reord_r", "reord_r", "ren_d", "ren_d", "ren_r", "ren_r", "inv", "inv",
                "shift_d", "shift_r", "append", "append", "drop", "drop", "drop"]
-    gen_ops = ["compose_r"] * 3 + ["compose_l"] * 3 + ["compose3", "prod_r", "prod_l", "reord_d", "reord_d",
-               "reord_r", "reord_r", "ren_d", "ren_r", "inv", "inv"]
+    gen_ops = ["compose_r"] * 3 + ["compose_l"] * 3 + ["compose3", "compose_n", "prod_n", "prod_r", "prod_l",
+               "reord_d", "reord_d",
+               "reord_r", "reord_r", "ren_d", "ren_r", "inv", "inv", "shift_d", "shift_r"]
     for _ in range(case["nops"]):
         dcs, rcs = _cs_of(cur.function_domain), _cs_of(cur.function_range)
         dt = dcs["dt"]
@@ -967,6 +1380,71 @@ def _build(case):
                 op["left"], op["right"] = L, R
             if why:
                 op["expect"], op["why"] = "refuse", why
+        elif kname == "compose_n":
+            # compose(L_1, .., L_a, cur, R_1, .., R_b) with a + b in 0..4; one partner may not match
+            nl, nr = rng.choice([(0, 0), (1, 1), (2, 0), (0, 2), (2, 1), (1, 2), (2, 2), (3, 0), (0, 3), (1, 0)])
+            if base == "sym":          # products of symbolic matrices swell quickly
+                nl, nr = min(nl, 1), min(nr, 1)
+            bad_at = rng.randrange(nl + nr) if (bad and nl + nr) else None
+            why, Rs, Ls = None, [], []
+            try:
+                tgt = dict(dcs)
+                for j in range(nr):                       # R_1's range is the current domain, R_2's is R_1's domain, ..
+                    target, w = dict(tgt), None
+                    if bad_at == j:
+                        target, w = _mismatch(rng, tgt, fresh)
+                    inv_ok = rng.random() < 0.5
+                    R = _gen_partner(rng, fresh, general=bool(general), rngcs=target,
+                                     nin=len(target["names"]) if inv_ok else None,
+                                     dt=tgt["dt"] if w != "dtype" else target["dt"], base=base, invertible=inv_ok)
+                    if w == "dtype":
+                        R["dom"]["dt"] = target["dt"]
+                    why = why or w
+                    Rs.append(R)
+                    tgt = _cs_of(_real_map(R).function_domain)
+                tgt = dict(rcs)
+                for j in range(nl):                       # innermost left partner first
+                    target, w = dict(tgt), None
+                    if bad_at == nr + j:
+                        target, w = _mismatch(rng, tgt, fresh)
+                    inv_ok = rng.random() < 0.5
+                    L = _gen_partner(rng, fresh, general=bool(general), dom=target,
+                                     nout=len(target["names"]) if inv_ok else None,
+                                     dt=tgt["dt"] if w != "dtype" else target["dt"], base=base, invertible=inv_ok)
+                    if w == "dtype":
+                        L["rng"]["dt"] = target["dt"]
+                    why = why or w
+                    Ls.insert(0, L)
+                    tgt = _cs_of(_real_map(L).function_range)
+            except Exception:
+                continue
+            op.update(ls=Ls, rs=Rs)
+            if why:
+                op["expect"], op["why"] = "refuse", why
+        elif kname == "prod_n":
+            nl, nr = rng.choice([(0, 0), (1, 1), (2, 0), (0, 2), (1, 2), (2, 1), (0, 1)])
+            used_i, used_o = list(dcs["names"]), list(rcs["names"])
+            room_i, room_o = MAXDIM - n_i, MAXDIM - n_o
+            parts = []
+            for _j in range(nl + nr):
+                if room_i < 1 or room_o < 1:
+                    break
+                k_i, k_o = rng.randint(1, min(room_i, 2)), rng.randint(1, min(room_o, 2))
+                pdt = dt if (general or dt == "O" or rng.random() < 0.8) else rng.choice(["i8", "f8"])
+                B = _gen_partner(rng, fresh, general=bool(general), nin=k_i, nout=k_o, dt=pdt, base=base)
+                B["dom"]["names"] = fresh.names(k_i, used_i)
+                B["rng"]["names"] = fresh.names(k_o, used_o)
+                used_i += B["dom"]["names"]
+                used_o += B["rng"]["names"]
+                room_i -= k_i
+                room_o -= k_o
+                parts.append(B)
+            nl = min(nl, len(parts))
+            if bad and parts:
+                parts[-1]["rng"]["names"][0] = rcs["names"][0]   # clash of output names: refused
+                op["expect"] = "any"
+            op.update(ls=parts[:nl], rs=parts[nl:],
+                      **{"in": rng.choice([None, "product", "pin", ""]), "out": rng.choice([None, "product", "pout"])})
         elif kname in ("prod_r", "prod_l"):
             room = MAXDIM - max(n_i, n_o)
             if room < 1:
@@ -1093,6 +1571,162 @@ def _build(case):
     return prog
 
 
+def _np_join(*codes):
+    """numpy's promotion of a sequence of arrays (pairwise, left to right: promotion is not associative),
+    computed independently of nipy.safe_dtype"""
+    import functools
+    return _dt_code(functools.reduce(np.promote_types, [np.dtype(DT_NP[c]) for c in codes]))
+
+
+def _wval(rng, code):
+    k = np.dtype(DT_NP[code]).kind
+    if k == "b":
+        return rng.choice(["0", "1", "1"])
+    if k in "iu":
+        return rng.choice(["0", "0", "1", "1", "2"])
+    if k in "fc":
+        return rng.choice(["0", "1", "1", "2", "1/2", "3/2"])
+    return rng.choice(["0", "1", "2", "1/2", "1/3"])
+
+
+def _wmat(rng, code, nout, nin, invertible):
+    if invertible and nin == nout:
+        n = nin
+        U = [[1 if i == j else (rng.choice([0, 0, 1]) if j > i else 0) for j in range(n)] for i in range(n)]
+        perm = list(range(n))
+        rng.shuffle(perm)
+        rows = [[str(v) for v in U[perm[i]]] + [_wval(rng, code)] for i in range(n)]
+    else:
+        rows = [[_wval(rng, code) for _ in range(nin + 1)] for _ in range(nout)]
+    return rows + [["0"] * nin + ["1"]]
+
+
+def _build_wdt(case):
+    """short programs over the whole dtype lattice: matrix, domain and range dtypes drawn independently from
+    bool / int8..64 / uint8..64 / float16..64 / complex64,128 / object; partners and points of yet other dtypes.
+    Values stay small and non-negative so that fixed-width integer arithmetic does not wrap."""
+    rng = random.Random(case["seed"])
+    fresh = _Fresh(rng)
+    # complex entries inside an object matrix are refused by the constructor's bottom-row test
+    # (float(complex) is a TypeError); the property speaks of float, integer and symbolic entries, so a program
+    # uses complex dtypes or the object dtype, not both
+    codes = [c for c in X.CS_CODES if c not in ("c8", "c16")] if rng.random() < 0.6 else \
+        [c for c in X.CS_CODES if c != "O"]
+    # (nor bool matrices inside object maps: sympy cannot invert a matrix of Python bools)
+    mcodes = codes + ([] if "O" in codes else ["b1"])
+    if rng.random() < 0.35:
+        mc = dc = rc = rng.choice(codes)
+    else:
+        mc, dc, rc = rng.choice(mcodes), rng.choice(codes), rng.choice(codes)
+    nin = rng.choice([1, 2, 2, 3])
+    nout = nin if rng.random() < 0.65 else rng.choice([1, 2, 3])
+    init = {"dom": _cs_json(fresh.names(nin), rng.choice(CS_NAMES), dc),
+            "rng": _cs_json(fresh.names(nout), rng.choice(CS_NAMES), rc),
+            "kind": "dt:" + mc, "mat": _wmat(rng, mc, nout, nin, rng.random() < 0.7)}
+    prog = {"init": init, "ops": [], "expect_init": "ok", "wide": True}
+    pool = ["0", "1", "2", "3", "1/2", "3/2", "1", "2"]
+    prog["pts"] = [[rng.choice(pool) for _ in range(MAXDIM + 2)] for _ in range(rng.choice([1, 2, 3]))]
+    try:
+        cur = _real_map(init)
+    except Exception:
+        prog["pk"] = dc
+        return prog
+
+    def small(m, lim):
+        a = np.asarray(m.affine)
+        try:
+            return all(abs(_exact(v)) <= lim for v in a.ravel())
+        except Exception:
+            return False
+    for _ in range(case["nops"]):
+        dcs, rcs = _cs_of(cur.function_domain), _cs_of(cur.function_range)
+        J = dcs["dt"]
+        narrow = J in ("i1", "u1", "b1")
+        if not small(cur, 10 if narrow else 200):
+            break
+        n_i, n_o = len(dcs["names"]), len(rcs["names"])
+        kname = rng.choice(["compose_r", "compose_r", "compose_l", "compose_l", "prod_n", "prod_n", "inv", "inv",
+                            "reord_d", "reord_r", "ren_d", "append", "shift_d", "shift_r"])
+        op = {"op": kname, "expect": "any"}
+        if kname in ("compose_r", "compose_l"):
+            mc2 = J if rng.random() < 0.5 else rng.choice(mcodes)
+            other = J if rng.random() < 0.8 else rng.choice(codes)
+            k = rng.choice([1, 2, 3])
+            if kname == "compose_r":
+                B = {"dom": _cs_json(fresh.names(k, dcs["names"]), rng.choice(CS_NAMES), other), "rng": dict(dcs),
+                     "kind": "dt:" + mc2, "mat": _wmat(rng, mc2, n_i, k, rng.random() < 0.6)}
+            else:
+                B = {"dom": dict(rcs), "rng": _cs_json(fresh.names(k, rcs["names"]), rng.choice(CS_NAMES), other),
+                     "kind": "dt:" + mc2, "mat": _wmat(rng, mc2, k, n_o, rng.random() < 0.6)}
+            op["map"] = B
+            # the partner keeps the touching coordinate system only if its own promoted dtype is J
+            if _np_join(mc2, B["dom"]["dt"], B["rng"]["dt"]) == J:
+                op["expect"] = "ok"
+            else:
+                op["expect"], op["why"] = "refuse", "dtype"
+        elif kname == "prod_n":
+            if max(n_i, n_o) + 2 > MAXDIM:
+                continue
+            parts = []
+            used_i, used_o = list(dcs["names"]), list(rcs["names"])
+            for _j in range(rng.choice([1, 1, 2])):
+                c2 = rng.choice(codes)
+                mc2 = rng.choice([c2, c2, rng.choice(mcodes)])
+                B = {"dom": _cs_json(fresh.names(1, used_i), "", c2), "rng": _cs_json(fresh.names(1, used_o), "", c2),
+                     "kind": "dt:" + mc2, "mat": _wmat(rng, mc2, 1, 1, False)}
+                used_i += B["dom"]["names"]
+                used_o += B["rng"]["names"]
+                parts.append(B)
+            nl = rng.randint(0, len(parts))
+            op.update(ls=parts[:nl], rs=parts[nl:], **{"in": rng.choice([None, "pin"]), "out": None})
+            op["expect"] = "ok"
+        elif kname == "inv":
+            sq, sing = _exact_rank_info(cur.affine)
+            if sq and not sing and J not in ("f2",):
+                op["expect"] = "ok"
+            elif sq and sing and J not in ("O", "f2"):
+                try:
+                    np.linalg.inv(np.asarray(cur.affine))
+                    continue           # rounding hides the exact singularity from LAPACK: not a property matter
+                except np.linalg.LinAlgError:
+                    pass
+        elif kname in ("reord_d", "reord_r"):
+            names = dcs["names"] if kname == "reord_d" else rcs["names"]
+            op["order"] = _gen_order(rng, names, False)
+            op["expect"] = "ok"
+        elif kname == "ren_d":
+            op["kv"], op["expect"] = _gen_rename(rng, list(dcs["names"]), fresh, False)
+        elif kname == "append":
+            if max(n_i, n_o) >= MAXDIM:
+                continue
+            both = list(dcs["names"]) + list(rcs["names"])
+            vk = rng.choice(["int", "float"])
+            op.update(**{"in": fresh.names(1, both)[0], "out": fresh.names(1, both)[0]},
+                      start=rng.choice(["0", "1", "2"]), step=rng.choice(["1", "2"]), vk=vk, expect="ok")
+        else:
+            if J.startswith("u") or J == "O":
+                continue
+            n = n_i if kname == "shift_d" else n_o
+            vk = "int" if _is_intk(J) else "float"
+            op.update(vec=[rng.choice(["0", "1", "2"]) for _ in range(n)], name="shifted", vk=vk, expect="ok")
+        prog["ops"].append(op)
+        try:
+            with warnings.catch_warnings():
+                warnings.simplefilter("ignore")
+                nxt, _ = _apply_op(cur, op, None)
+        except Exception:
+            break
+        if nxt is None:
+            break
+        cur = nxt
+        if kname == "inv":
+            break                      # inexact values from here on
+    final = _dt_code(cur.function_domain.coord_dtype)
+    # (bool points are not multiplied with the sympy numbers an object-dtype inverse holds)
+    prog["pk"] = final if rng.random() < 0.6 else rng.choice(codes + ([] if final == "O" else ["b1"]))
+    return prog
+
+
 def _gen_pts(rng, base):
     npts = rng.choice([1, 2, 3, 5])
     vals = ["-3", "-2", "-1", "0", "1", "2", "3", "5", "7", "1/2", "-3/2", "1/4", "9/4"]
@@ -1102,46 +1736,287 @@ def _gen_pts(rng, base):
 
 
 # ----------------------------------------------------------------------
+# equality / similar_to / equivalent
+# ----------------------------------------------------------------------
+def _bstr(v):
+    return str(bool(v)).lower()
+
+
+def _run_eq(case):
+    import copy
+    import nipy.core.reference.coordinate_map as cm
+    rng = random.Random(case["seed"])
+    kind = rng.choice(["float", "float", "float", "int", "frac"])
+    nin, nout = rng.randint(1, 4), rng.randint(1, 4)
+    A = X.rand_map(rng, nin, nout, kind)
+    mode = rng.choice(["same", "reordered", "reordered", "reordered", "tiny", "moderate", "renamed", "csname",
+                       "dtype", "dims", "unrelated", "subset"])
+    pi, po = list(range(nin)), list(range(nout))
+    if mode != "same":
+        rng.shuffle(pi)
+        rng.shuffle(po)
+    B = {"dom": dict(A["dom"], names=[A["dom"]["names"][j] for j in pi]),
+         "rng": dict(A["rng"], names=[A["rng"]["names"][i] for i in po]), "kind": kind,
+         "mat": [[A["mat"][po[i]][pi[j]] for j in range(nin)] + [A["mat"][po[i]][nin]] for i in range(nout)]
+                + [["0"] * nin + ["1"]]}
+    exact = mode in ("same", "reordered")
+    if mode in ("tiny", "moderate") and kind == "float":
+        i, j = rng.randrange(nout), rng.randrange(nin + 1)
+        B["mat"][i][j] = str(Fraction(B["mat"][i][j]) + (Fraction(1, 2 ** 30) if mode == "tiny" else Fraction(1, 4)))
+    elif mode in ("tiny", "moderate"):
+        i, j = rng.randrange(nout), rng.randrange(nin + 1)
+        B["mat"][i][j] = str(Fraction(B["mat"][i][j]) + 1)
+    elif mode == "renamed":
+        side = rng.choice(["dom", "rng"])
+        B[side]["names"][rng.randrange(len(B[side]["names"]))] = "other"
+    elif mode == "csname":
+        side = rng.choice(["dom", "rng"])
+        B[side]["name"] = B[side]["name"] + "_b"
+    elif mode == "dtype" and kind != "frac":
+        B["kind"] = "int" if kind == "float" else "float"
+        dtn = MDT[B["kind"]]
+        B["dom"]["dt"] = B["rng"]["dt"] = dtn
+        B["mat"] = [[str(int(Fraction(v))) for v in row] for row in B["mat"]] if B["kind"] == "int" else B["mat"]
+        if any(Fraction(v).denominator != 1 for row in A["mat"] for v in row):
+            exact = False
+    elif mode == "dims":
+        B = X.rand_map(rng, nin + 1, nout, kind, dom_names=A["dom"]["names"] + ["extra"],
+                       rng_names=A["rng"]["names"])
+    elif mode == "unrelated":
+        B = X.rand_map(rng, nin, nout, kind, dom_names=B["dom"]["names"], rng_names=B["rng"]["names"])
+    elif mode == "subset" and nin >= 2:
+        B = X.rand_map(rng, nin - 1, nout, kind, dom_names=B["dom"]["names"][:-1], rng_names=B["rng"]["names"])
+    ra, rb = _real_map(A), _real_map(B)
+    pts = _gen_pts(rng, kind)
+    lines, impl, oracle = [], [], None
+    for (jx, x, jy, y) in ((A, ra, B, rb), (B, rb, A, ra)):
+        def obs(f):
+            try:
+                with warnings.catch_warnings():
+                    warnings.simplefilter("ignore")
+                    return _bstr(f())
+            except Exception as e:
+                return errname(e)
+        e1, e2, e3 = obs(lambda: x == y), obs(lambda: x.similar_to(y)), obs(lambda: cm.equivalent(x, y))
+        ne = obs(lambda: x != y)
+        if e1 in ("true", "false") and ne == e1:
+            oracle = oracle or "AffineTransform: == and != agree"
+        lines.append(f"eq {_raw_line(jx)} {_raw_line(jy)}")
+        impl.append({"status": "txt", "txt": f"eq {e1} | sim {e2} | equiv {e3}"})
+        # clause: equivalent maps send every named input tuple to the same named outputs
+        if e3 == "true":
+            try:
+                pk = _pk_for(x)
+                px = _pts_np(pts, pk, x.ndims[0])
+                col = {n: j for j, n in enumerate(x.function_domain.coord_names)}
+                py = np.empty_like(px)
+                for j, n in enumerate(y.function_domain.coord_names):
+                    py[:, j] = px[:, col[n]]
+                vx, vy = _call_f(x, px), _call_f(y, py)
+                ocol = {n: j for j, n in enumerate(x.function_range.coord_names)}
+                vy2 = np.empty_like(vy)
+                for j, n in enumerate(y.function_range.coord_names):
+                    vy2[:, ocol[n]] = vy[:, j]
+                scale = max(1.0, float(np.max(np.abs(vx))) if vx.size else 1.0)
+                if not np.allclose(vx, vy2, rtol=1e-4, atol=1e-4 * scale):
+                    oracle = oracle or ("equivalent(m1, m2) is True but the named input tuple "
+                                        f"{dict(zip(x.function_domain.coord_names, px[0].tolist()))} maps to "
+                                        "different named outputs")
+            except Exception as e:
+                oracle = oracle or f"equivalent(m1, m2) is True but the maps cannot be compared by name: {e!r}"
+        if e2 == "true":
+            # maps reported similar carry the same coordinate names in the same order and agree at every point
+            try:
+                px = _pts_np(pts, _pk_for(x), x.ndims[0])
+                if list(x.function_domain.coord_names) != list(y.function_domain.coord_names) or \
+                   list(x.function_range.coord_names) != list(y.function_range.coord_names):
+                    oracle = oracle or "similar_to is True for maps whose coordinate names differ"
+                else:
+                    vx, vy = _call_f(x, px), _call_f(y, px)
+                    scale = max(1.0, float(np.max(np.abs(vx))) if vx.size else 1.0)
+                    if not np.allclose(vx, vy, rtol=1e-4, atol=1e-4 * scale):
+                        oracle = oracle or f"similar_to is True but the maps differ at {px[0].tolist()}"
+            except Exception as e:
+                oracle = oracle or f"similar_to is True but the maps cannot be compared: {e!r}"
+        if e3 == "false" and exact and mode in ("same", "reordered"):
+            oracle = oracle or ("equivalent(m1, m2) is False for a map and its exact reordering "
+                                f"(domain order {pi}, range order {po})")
+    # general maps: equality is identity of the functions
+    with warnings.catch_warnings():
+        warnings.simplefilter("ignore")
+        try:
+            G = cm._as_coordinate_map(ra) if kind == "float" else None
+        except Exception:
+            G = None
+        try:
+            if G is None:
+                raise StopIteration
+            if not cm.equivalent(G, G) or not (G == G) or not G.similar_to(G) or (G != G):
+                oracle = oracle or "a general CoordinateMap is not equivalent / equal / similar to itself"
+            if nin >= 2 and cm.equivalent(G, G.reordered_domain()):
+                oracle = oracle or "a general CoordinateMap is reported equivalent to its reordering (functions differ)"
+        except StopIteration:
+            pass
+        except Exception as e:
+            oracle = oracle or f"equivalent on a general CoordinateMap raised {type(e).__name__}: {e}"
+    return {"lines": lines, "impl": impl, "oracle": oracle, "nontrivial": True,
+            "tags": sorted({"eq", "eq:" + mode, "kind=" + kind}), "mutated": None}
+
+
+def _run_axis(case):
+    import nipy.core.reference.coordinate_map as cm
+    rng = random.Random(case["seed"])
+    nin, nout = rng.randint(1, 5), rng.randint(1, 5)
+    A = X.structured_map(rng, nin, nout, share=rng.random() < 0.5)
+    fix0 = rng.random() < 0.6
+    real = _real_map(A)
+    try:
+        orn = _ornts(real.affine, fix0)
+    except Exception:
+        return {"lines": [], "impl": [], "oracle": None, "nontrivial": False, "tags": ["axis-skipped"],
+                "mutated": None}
+    dn, rn = A["dom"]["names"], A["rng"]["names"]
+    ids = list(dn) + [n for n in rn if n not in dn] + list(range(-nin - 1, nin + 2)) + ["nosuch"]
+    ontxt = f"{len(orn)}" + "".join(" x" if o is None else f" {o}" for o in orn)
+
+    def fo(v):
+        return "x" if v is None else str(v)
+    lines, impl, oracle = [], [], None
+    snap = Snapshot(aff=real.affine)
+    with warnings.catch_warnings():
+        warnings.simplefilter("ignore")
+        i2o = cm.axmap(real, "in2out", fix0)
+        o2i = cm.axmap(real, "out2in", fix0)
+        both = cm.axmap(real, "both", fix0)
+        if both != (i2o, o2i):
+            oracle = "axmap(..., 'both') is not the pair of the two single-direction maps"
+        if set(i2o) != set(range(nin)) | set(dn) or set(o2i) != set(range(nout)) | set(rn) or \
+           any(i2o[i] != i2o[n] for i, n in enumerate(dn)) or any(o2i[i] != o2i[n] for i, n in enumerate(rn)):
+            oracle = "axmap: index keys and name keys disagree"
+        t1 = " ".join(fo(i2o[i]) for i in range(nin))
+        t2 = " ".join(fo(o2i[i]) for i in range(nout))
+        # where every column and every row of the linear part has at most one non-zero entry, "the output axis
+        # that best matches an input axis" is not a matter of numerics: it is the row of that entry
+        lin = [[Fraction(v) for v in row[:-1]] for row in A["mat"][:-1]]
+        colnz = [[i for i in range(nout) if lin[i][j] != 0] for j in range(nin)]
+        rownz = [[j for j in range(nin) if lin[i][j] != 0] for i in range(nout)]
+        mono = all(len(c) <= 1 for c in colnz) and all(len(r) <= 1 for r in rownz) and not fix0
+        if mono and oracle is None:
+            w_i2o = [c[0] if c else None for c in colnz]
+            w_o2i = [r[0] if r else None for r in rownz]
+            if [i2o[i] for i in range(nin)] != w_i2o or [o2i[i] for i in range(nout)] != w_o2i:
+                oracle = (f"axmap on a map whose axes correspond one to one: in2out={[i2o[i] for i in range(nin)]} "
+                          f"out2in={[o2i[i] for i in range(nout)]}, but input axis j feeds output axes {w_i2o} "
+                          f"and output axis i is fed by {w_o2i}")
+        for ax in ids:
+            try:
+                v = str(int(cm.input_axis_index(real, ax, fix0)))
+            except Exception as e:
+                v = errname(e)
+            if oracle is None and isinstance(ax, int) and -nin <= ax < nin and v != str(ax % nin):
+                oracle = f"input_axis_index({ax}) on {nin} input axes is {v}, not axis {ax % nin}"
+            if oracle is None and mono and isinstance(ax, str) and ax in dn and ax not in rn and v != str(dn.index(ax)):
+                oracle = f"input_axis_index({ax!r}) is {v}, but {ax!r} is input axis {dn.index(ax)}"
+            if oracle is None and mono and isinstance(ax, str) and ax in rn and ax not in dn and \
+               rownz[rn.index(ax)] and v != str(rownz[rn.index(ax)][0]):
+                oracle = (f"input_axis_index({ax!r}) is {v}, but output axis {ax!r} is fed by input axis "
+                          f"{rownz[rn.index(ax)][0]} alone")
+            try:
+                a, b = cm.io_axis_indices(real, ax, fix0)
+                w = f"{fo(a)} {fo(b)}"
+            except Exception as e:
+                w = errname(e)
+            key = f"i {ax}" if isinstance(ax, int) else f"n {_enc(ax)}"
+            lines.append(f"axis {_raw_line(A)} {ontxt} {key}")
+            impl.append({"status": "txt", "txt": f"in2out {t1} | out2in {t2} | iai {v} | ioi {w}"})
+        for d in ("both", "in2out", "sideways", ""):
+            try:
+                cm.axmap(real, d, fix0)
+                v = "ok"
+            except Exception as e:
+                v = errname(e)
+            lines.append(f"axmapdir {d if d else 'empty'}")
+            impl.append({"status": "txt", "txt": v})
+    return {"lines": lines, "impl": impl, "oracle": oracle, "nontrivial": True,
+            "tags": sorted({"axis", "axis:fix0" if fix0 else "axis:nofix0"}), "mutated": snap.changed()}
+
+
+# ----------------------------------------------------------------------
 class C01(PropertyCheck):
     id = "C01"
     title = "Coordinate-map algebra agrees with function semantics"
-    lean_modules = ["NipyVerif.Props.C01"]
+    lean_modules = ["NipyVerif.Props.C01", "NipyVerif.Props.C01B", "NipyVerif.Props.C01C", "NipyVerif.Props.C01D"]
     driver = "Drivers/C01.lean"
-    rule = ("a case is a program: an initial AffineTransform (float64 / int64 / object dtype with Fractions or sympy "
-            "symbols, domain and range dimension 1..5, ~6% malformed constructor arguments), optionally wrapped as a "
-            "general CoordinateMap (affine, polynomial shear with inverse, squaring without inverse), then 1..8 "
-            "operations drawn from compose (2- and 3-ary, 15% with a coordinate system differing in name, one "
-            "coordinate, order, dtype or dimension), product, reordered_domain/range (uniform random permutations, "
-            "by index or by name, default reversal, identity, malformed orders), renamed_domain/range (name and "
-            "positive/negative index keys, clashes), inverse, shifted_domain/range_origin, append_io_dim, "
-            "drop_io_dim, and 1..5 points; plus every permutation of up to 4 (thorough: 5) axes on each side for "
-            "affine and general maps, and direct _fix0 probes. Non-trivial = at least one operation on a map with "
-            "at least one axis; distinct by full JSON of the case")
+    rule = ("chain: a program = an initial AffineTransform (float64 / int64 / object dtype with Fractions or sympy "
+            "symbols, domain and range dimension 1..5, ~6% malformed constructor arguments; 20% built through "
+            "from_params (matrix or (A, b) tuple), from_start_step, identity or CoordMapMaker.make_affine/__call__ "
+            "with 15% malformed arguments), optionally wrapped as a general CoordinateMap (affine, polynomial shear "
+            "with inverse, squaring without inverse; 20% made by CoordMapMaker.make_cmap), then 1..8 operations "
+            "drawn from compose (2-, 3- and n-ary with up to 3 partners per side, 15% with a coordinate system "
+            "differing in name, one coordinate, order, dtype or dimension), product (binary and n-ary with "
+            "input_name/output_name), reordered_domain/range (uniform random permutations, by index or by name, "
+            "default reversal, identity, malformed orders), renamed_domain/range (name and positive/negative index "
+            "keys, swaps, cycles, chains, clashes), inverse, shifted_domain/range_origin (also on general maps), "
+            "append_io_dim, drop_io_dim (by input name, output name, positive/negative index, unknown), and 1..5 "
+            "points; sympy programs are compared at two substitution points. perm: every permutation of up to 4 "
+            "(thorough: 5) axes on each side, affine and general. wdt: short programs whose matrix / domain / range "
+            "dtypes are drawn independently from bool, int8..64, uint8..64, float16..64, complex64/128, object, with "
+            "partners and points of yet other dtypes. eq: a map against its exact / perturbed / renamed / retyped "
+            "reordering for ==, similar_to, equivalent (both argument orders). axis: structured matrices (scaled "
+            "partial permutations, shared names, zero rows/columns) with every axis identifier for axmap, "
+            "input_axis_index, io_axis_indices. cs: CoordinateSystem construction / index / equality / similar_to / "
+            "product / CoordSysMaker / API predicates / safe_dtype (whole table) / can_cast / shapes of point "
+            "batches (scalar, 1-D, 2-D, 3-D, empty, wrong width, transposed). fix0: direct _fix0 probes. "
+            "Non-trivial = at least one operation or a class constructor; distinct by full JSON of the case")
     assumptions = [
         "matrix inverse (numpy.linalg.inv / sympy Matrix.inv) is a parameter certified in the model: a candidate is "
         "accepted only if both products with the matrix are the identity; the implementation's floats are compared "
-        "with the exact rational inverse to 1e-8 relative",
-        "np.allclose in the bottom-row test of AffineTransform.__init__ is modelled exactly with rtol=1e-5, "
-        "atol=1e-8; generated values stay away from the edge of that window; the composition theorems assume the "
-        "exact bottom row [0,..,0,1]",
-        "nibabel.io_orientation is a parameter of drop_io_dim (its result on the _fix0'd matrix is passed to the model)",
-        "orth_axes uses the tolerance 1e-5; drop theorems are stated for exact zeros (generated entries are 0 or >= 1/4)",
+        "with the exact rational inverse to 1e-8 relative (float16: 4e-3, float32/complex64: 2e-6)",
+        "np.allclose in the bottom-row test of AffineTransform.__init__ and in ==/similar_to is modelled exactly with "
+        "rtol=1e-5, atol=1e-8; generated values stay away from the edge of that window; the function-level theorems "
+        "(composition, programs) assume the exact bottom row [0,..,0,1] (hypothesis `bottomExact`, reported per "
+        "generated program by the driver as `hyp`)",
+        "nibabel.io_orientation is a parameter of drop_io_dim / axmap / input_axis_index / io_axis_indices (its result "
+        "on the _fix0'd matrix is passed to the model); the drop theorems hold for every value of that parameter",
+        "orth_axes uses the tolerance 1e-5; drop_keeps_rest assumes that no entry of the matrix lies in (0, 1e-5] "
+        "(`noTiny`; generated entries are 0 or >= 2^-20 only in the axis kind, >= 1/4 in programs)",
         "IEEE rounding in np.dot / npl.inv (inputs are small dyadic rationals, so products are exact; inverses are "
         "compared with tolerance); exactly singular float matrices whose singularity LAPACK does not see are not generated",
-        "sympy symbols are compared after substituting a=3/2, b=-2, c=1/4 (all operations are rational functions of the entries)",
-        "dtype lattice restricted to int64 < float64 < object",
+        "fixed-width integer arithmetic is modelled in Z: values of narrow integer maps are compared only while the "
+        "exact value fits the type (generated values are small and non-negative there)",
+        "sympy symbols are compared after substituting two rational points (all operations are rational functions "
+        "of the entries); a point at which the model meets a singular matrix is dropped",
+        "numpy's promotion and can_cast tables are modelled by a size/kind rule and checked exhaustively (15 x 15) "
+        "against numpy in every run; complex entries inside an object matrix (refused by float()) are not generated",
+        "general CoordinateMap equality is identity of Python function objects: == / similar_to / equivalent on "
+        "general maps are oracle-only (a map equals itself; it is not equivalent to its non-trivial reordering)",
+        "coordinate systems with no coordinate at all compare equal whatever their dtype (numpy composite dtype); "
+        "the model's composition gate uses structural equality, the two differ only for 0-dimensional systems, "
+        "which are not generated as intermediate systems",
     ]
-    level_note = ("general CoordinateMap: composition/inverse/product theorems hold for arbitrary Lean functions; "
-                  "append/drop theorem covers the affine case with io_orientation as a hypothesis")
+    level_note = ("proved (Lean, all inputs): composition/chains, n-ary product, inverse, reorder/rename with named "
+                  "tuples, shifts, append, function-level drop (`drop_keeps_rest`, for every io_orientation result), "
+                  "append-then-drop, `prog_sound` (induction over programs of all eleven operations, affine maps) and "
+                  "`cprog_sound` (programs of compose/product/reorder/rename/inverse/shift on general CoordinateMaps "
+                  "= arbitrary functions with optional inverse, invariant `CMap.wf`), `equivalent_sound`, "
+                  "from_start_step/identity, dtype lattice (preorder, upper bound), call gate. hypotheses (explicit, "
+                  "evaluated per generated program by the driver as `hyp`): exact bottom row [0..0 1] of the initial "
+                  "and partner maps; dropped column exactly zero off the dropped row (`noTiny` for orth_axes). "
+                  "parameters: io_orientation result (theorems hold for every value), certified matrix inverse. "
+                  "oracle-only: equivalent_complete (exact reorderings are equivalent), ==/similar_to/equivalent on "
+                  "general maps, meaning of axmap/input_axis_index on one-to-one maps, CoordMapMaker.make_affine "
+                  "block structure (modelled and compared, no theorem), shape rule of point batches (modelled, "
+                  "oracle: batch = row-wise evaluation)")
 
     # ------------------------------------------------------------------
     def generate(self, rng, tier):
-        n_chain, n_gen = (420, 140) if tier == "quick" else (9000, 2500)
+        n_chain, n_gen = (460, 160) if tier == "quick" else (9000, 2500)
         cases = []
         for _ in range(n_chain):
             vk = rng.choice(["float"] * 5 + ["int"] * 3 + ["frac"] * 2 + ["sym"])
+            nops = rng.choice([1, 1, 2, 2, 3, 3, 4, 5, 6, 8])
             cases.append({"kind": "chain", "seed": rng.randrange(1 << 40), "vk": vk,
-                          "nops": rng.choice([1, 1, 2, 2, 3, 3, 4, 5, 6, 8])})
+                          "nops": min(nops, 4) if vk == "sym" else nops})
         for _ in range(n_gen):
             vk = rng.choice(["float"] * 4 + ["int"] * 2)
             cases.append({"kind": "chain", "seed": rng.randrange(1 << 40), "vk": vk, "general": True,
@@ -1158,6 +2033,18 @@ class C01(PropertyCheck):
                                   "general": (rng.random() < 0.25)})
         for _ in range(40 if tier == "quick" else 400):
             cases.append({"kind": "fix0", "seed": rng.randrange(1 << 40)})
+        for _ in range(220 if tier == "quick" else 3000):
+            cases.append({"kind": "wdt", "seed": rng.randrange(1 << 40), "nops": rng.choice([0, 1, 1, 2, 2, 3])})
+        for _ in range(90 if tier == "quick" else 1200):
+            cases.append({"kind": "eq", "seed": rng.randrange(1 << 40)})
+        for _ in range(60 if tier == "quick" else 800):
+            cases.append({"kind": "axis", "seed": rng.randrange(1 << 40)})
+        subs = ["new", "index", "cmp", "prod", "maker", "isapi", "safe", "shape", "shape"]
+        for _ in range(70 if tier == "quick" else 600):
+            cases.append({"kind": "cs", "sub": rng.choice(subs), "seed": rng.randrange(1 << 40)})
+        # the whole can_cast / safe_dtype table, one row per case
+        for a in X.NUM_CODES:
+            cases.append({"kind": "cs", "sub": "safe", "row": a, "seed": rng.randrange(1 << 40)})
         return cases
 
     # ------------------------------------------------------------------
@@ -1169,6 +2056,8 @@ class C01(PropertyCheck):
             if c.get("general") is True:
                 c["general"] = True
             return _build(c)
+        if case["kind"] == "wdt":
+            return _build_wdt(case)
         if case["kind"] == "perm":
             rng = random.Random(case["seed"])
             fresh = _Fresh(rng)
@@ -1192,8 +2081,33 @@ class C01(PropertyCheck):
         warnings.filterwarnings("ignore")
         if case["kind"] == "fix0":
             return self._fix0(case)
+        if case["kind"] == "eq":
+            return _run_eq(case)
+        if case["kind"] == "axis":
+            return _run_axis(case)
+        if case["kind"] == "cs":
+            return X.run_cs(case)
         prog = self._prog_of(case)
-        return _execute(prog)
+        r = _execute(prog)
+        if prog["init"].get("kind") == "sym" and r["impl"] and r["impl"][0].get("status") == "ok":
+            # second substitution point: the implementation's symbolic result must agree with the model there too
+            # (the point may be a pole or a zero of a determinant: then it says nothing and is dropped; the
+            # property clauses were already evaluated at the first point)
+            r2 = None
+            try:
+                SUBS_TXT.update(SUBS_POINTS[1])
+                r2 = _execute(prog)
+            except Exception:
+                r2 = None
+            finally:
+                SUBS_TXT.update(SUBS_POINTS[0])
+            if r2 is not None and r2["impl"][0].get("status") == "ok":
+                for o in r2["impl"]:
+                    o["second_point"] = True
+                r["lines"] += r2["lines"]
+                r["impl"] += r2["impl"]
+                r["tags"] = sorted(set(r["tags"]) | {"sym-2pt"})
+        return r
 
     def _fix0(self, case):
         import nipy.core.reference.coordinate_map as cm
@@ -1216,12 +2130,19 @@ class C01(PropertyCheck):
 
     # ------------------------------------------------------------------
     @staticmethod
-    def _cmp_vals(impl_rows, model_txt, exact, extra_atol=0.0):
+    def _cmp_vals(impl_rows, model_txt, exact, extra_atol=0.0, dt=None):
         rows = [r.split() for r in model_txt.split(" ; ")] if model_txt.strip() else []
         if len(rows) != len(impl_rows):
             return f"row count impl={len(impl_rows)} model={len(rows)}"
         flat_m = [Fraction(t) for r in rows for t in r]
         scale = max([1.0] + [abs(float(v)) for v in flat_m])
+        if dt in DT_BITS:
+            # fixed-width integers wrap around; the model computes in Z: compared only while every value fits
+            b = DT_BITS[dt]
+            lo, hi = (0, 2 ** b - 1) if dt.startswith("u") else (-2 ** (b - 1), 2 ** (b - 1) - 1)
+            if any(v < lo or v > hi for v in flat_m):
+                return None
+        rtol = DT_RTOL.get(dt, 1e-8)
         for i, (a, b) in enumerate(zip(impl_rows, rows)):
             if len(a) != len(b):
                 return f"row {i}: length impl={len(a)} model={len(b)}"
@@ -1229,19 +2150,23 @@ class C01(PropertyCheck):
                 fx, fy = Fraction(x), Fraction(y)
                 if fx == fy:
                     continue
-                if exact or not close(fx, fy, 1e-8, 1e-8 * scale + extra_atol):
+                if exact or not close(fx, fy, rtol, rtol * scale + extra_atol):
                     return f"[{i},{j}]: impl={float(fx)!r} model={float(fy)!r}"
         return None
 
     def compare(self, case, obs, out):
         if out.startswith("bad-op"):
             return "model could not parse the line"
+        if obs["status"] == "txt":
+            return None if out.strip() == obs["txt"].strip() else f"impl={obs['txt']!r} model={out.strip()!r}"
         if obs["status"] == "fix0":
             toks = out.split()
             r, c = int(toks[0]), int(toks[1])
             body = [toks[2 + i * c: 2 + (i + 1) * c] for i in range(r)]
             return self._cmp_vals(obs["aff"], " ; ".join(" ".join(b) for b in body), True)
         parts = [p.strip() for p in out.split(" | ")]
+        if obs.get("second_point") and parts[0] != "ok":
+            return None       # the second substitution point hits a singular matrix in the model: says nothing
         if parts[0] != obs["status"]:
             return f"status impl={obs['status']} model={parts[0]}"
         if obs["status"] != "ok":
@@ -1260,7 +2185,7 @@ class C01(PropertyCheck):
             if r != len(obs["aff"]) or c != len(obs["aff"][0]):
                 return f"affine shape impl={len(obs['aff'])}x{len(obs['aff'][0])} model={r}x{c}"
             body = " ; ".join(" ".join(toks[2 + i * c: 2 + (i + 1) * c]) for i in range(r))
-            d = self._cmp_vals(obs["aff"], body, obs["aff_dt"] == "i8")
+            d = self._cmp_vals(obs["aff"], body, _is_intk(obs["aff_dt"]), dt=obs["aff_dt"])
             if d:
                 return "affine " + d
             if obs["aff_dt"] != obs["dom"]["dt"]:
@@ -1273,9 +2198,14 @@ class C01(PropertyCheck):
         else:
             if not call.startswith("vals"):
                 return f"call impl=values model={call}"
-            d = self._cmp_vals(obs["call"], call[4:].strip(), False)
+            d = self._cmp_vals(obs["call"], call[4:].strip(), False, dt=obs.get("call_dt", obs["dom"]["dt"]))
             if d:
                 return "call " + d
+        if "hyp" in obs:
+            want = f"hyp {1 if obs['hyp'] else 0}"
+            got = [q for q in parts if q.startswith("hyp ")]
+            if got != [want]:
+                return f"side conditions of prog_sound / cprog_sound: impl says {want!r}, model says {got!r}"
         if "inv" in obs:
             inv = parts[k + 1]
             if obs["inv"] is None:
@@ -1289,14 +2219,15 @@ class C01(PropertyCheck):
                     return f"inverse function impl=values model={inv[:40]}"
                 ymax = max([0.0] + [abs(float(Fraction(v))) for row in obs["call"] for v in row]) \
                     if not isinstance(obs["call"], str) else 0.0
-                d = self._cmp_vals(obs["inv"], inv[3:].strip(), False, 1e-12 * ymax * ymax)
+                d = self._cmp_vals(obs["inv"], inv[3:].strip(), False,
+                                   1e-12 * ymax * ymax + 1e-13 * obs.get("inv_amp", 0.0) * (1.0 + ymax))
                 if d:
                     return "inverse-call " + d
         return None
 
     # ------------------------------------------------------------------
     def shrink(self, case):
-        if case.get("kind") == "fix0":
+        if case.get("kind") in ("fix0", "eq", "axis", "cs"):
             return
         try:
             prog = self._prog_of(case)
@@ -1304,7 +2235,10 @@ class C01(PropertyCheck):
             return
         ops = prog["ops"]
         for i in range(len(ops) - 1, -1, -1):
-            p = dict(prog, ops=ops[:i] + ops[i + 1:])
+            # the operations after a removed one were generated for another current map: they may now be
+            # refused legitimately, so only the property clauses of the steps that still succeed count
+            tail = [dict(o, expect="any") for o in ops[i + 1:]]
+            p = dict(prog, ops=ops[:i] + tail)
             yield {"kind": "prog", "prog": p}
         if len(prog["pts"]) > 1:
             yield {"kind": "prog", "prog": dict(prog, pts=prog["pts"][:1])}
@@ -1312,7 +2246,24 @@ class C01(PropertyCheck):
             yield {"kind": "prog", "prog": prog}
 
     def classify(self, case, failure):
-        return None
+        """known-finding key for the one genuine defect found on the pinned tree (fix proposed in
+        proposed_fixes/C01-product-exact-one.patch): _product_affines (and from_params with an (A, b) tuple,
+        through nibabel's from_matvec) store a *float* 1.0 in the corner of an object-dtype (exact) matrix;
+        inverse() of an exactly singular exact map built from it runs sympy in floating point and returns a
+        garbage 'inverse' instead of raising NonInvertibleMatrixError."""
+        txt = failure if isinstance(failure, str) else str(failure)
+        if "inverse(map(x)) != x" not in txt:
+            return None
+        try:
+            prog = self._prog_of(case)
+        except Exception:
+            return None
+        init = prog.get("init", {})
+        exact = init.get("kind") in ("frac", "sym", "dt:O") or "O" in (init.get("dom", {}).get("dt"),
+                                                                        init.get("rng", {}).get("dt"))
+        made_by_product = init.get("ctor") in ("mkaff", "fpmv") or any(
+            o["op"] in ("prod_r", "prod_l", "prod_n", "append") for o in prog.get("ops", []))
+        return "product-float-one-in-exact-matrix" if (exact and made_by_product) else None
 
 
 CHECK = C01()
